@@ -38,7 +38,10 @@ def gen(rng: random.Random, depth=0, maxd=5, adversarial=True):  # noqa: C901, P
             return uuid.UUID(int=rng.getrandbits(128))
         if c == 7:
             return rng.choice([Decimal("0"), Decimal("-0"), Decimal("1.10"), Decimal("1E+400"), Decimal("NaN"), Decimal("-sNaN123"),
-                               Decimal("Infinity"), Decimal("-Infinity"), Decimal(str(rng.uniform(-1e9, 1e9))), Decimal("0.%s1" % ("0" * rng.randrange(0, 40)))])
+                               Decimal("Infinity"), Decimal("-Infinity"), Decimal(str(rng.uniform(-1e9, 1e9))), Decimal("0.%s1" % ("0" * rng.randrange(0, 40))),
+                               Decimal("%s%s.%sE%d" % (rng.choice(["", "-"]), "".join(rng.choice("0123456789") for _ in range(rng.randrange(1, 60))),
+                                                       "".join(rng.choice("0123456789") for _ in range(rng.randrange(0, 40))), rng.randrange(-500, 500))),
+                               Decimal("NaN%d" % rng.randrange(10 ** 30, 10 ** 31))])
         if c == 8:
             tz = rng.choice([None, _dt.timezone.utc, _dt.timezone(_dt.timedelta(hours=5, minutes=30)), _dt.timezone(_dt.timedelta(hours=-11)),
                              _dt.timezone(_dt.timedelta(seconds=rng.randrange(-86399, 86399))),
@@ -220,9 +223,18 @@ def run_case(case):
             viol.append(x)
         samples.append("depth %d %s chain -> %s" % (depth, shape, how))
     else:
+        import decimal
+
+        narrow = case["seed"] % 4 == 3  # the caller's arithmetic context must not leak into the codec
         for _ in range(case["n"]):
             v = gen(rng, 0, rng.choice([2, 4, 8]))
-            x, how = check_value(v, "value")
+            if narrow:
+                with decimal.localcontext() as dctx:
+                    dctx.prec = rng.choice([1, 3, 9])
+                    dctx.rounding = decimal.ROUND_DOWN
+                    x, how = check_value(v, "value")
+            else:
+                x, how = check_value(v, "value")
             counts[how] += 1
             try:
                 classes.add("%s|%s" % (canon(v)[:3], how) + "|" + str(min(len(canon(v)) // 50, 6)))
@@ -269,7 +281,7 @@ def run_concurrent(case):
 
 
 RULE = ("seeded typed-grammar generator over the serializer's stated domain (exact-type None/bool/int to 4300 digits/float incl. +-inf, nan, -0.0/"
-        "str incl. lone surrogates/bytes/UUID/Decimal incl. NaN, sNaN, Inf/datetime naive, UTC, arbitrary fixed offsets, fold/date; lists, tuples, "
+        "str incl. lone surrogates/bytes/UUID/Decimal incl. NaN, sNaN with payload, Inf, up to 100 significant digits, a quarter of the cases under a narrow caller decimal context/datetime naive, UTC, arbitrary fixed offsets, fold/date; lists, tuples, "
         "string-keyed dicts, BatchResults to depth 8; chains to depth 600) plus adversarial classes (envelope look-alikes, empty containers, "
         "bool/int/float look-alikes, dicts with int/bool/None/float/bytes/tuple/UUID/date/Decimal keys and colliding keys). Oracle: serialize "
         "raises, or canon(deserialize(serialize(v))) == canon(v) with a type-tagged NaN/-0.0/Decimal/tz-aware canonical form. A class = "
